@@ -4,13 +4,11 @@ set -e
 cd "$(dirname "$0")"
 export CARGO_NET_OFFLINE=true
 mkdir -p work evidence replays
-python3 - <<'PY'
-import importlib.util, sys
-spec = importlib.util.spec_from_loader("check", importlib.machinery.SourceFileLoader("check", "./check"))
-m = importlib.util.module_from_spec(spec); spec.loader.exec_module(m)
-print("layout extractor:", m.extract_layout())
-PY
+./check --layout
 (cd lean && lake build 2>&1 | tail -5)
+# property theorem modules (those registered in props.json)
+MODS=$(python3 -c "import json; print(' '.join('PG.Props.'+k for k,v in sorted(json.load(open('props.json')).items()) if v.get('theorems')))")
+if [ -n "$MODS" ]; then (cd lean && lake build $MODS 2>&1 | tail -3); fi
 [ -f harness/Cargo.lock ] || cp /repo/Cargo.lock harness/Cargo.lock
 (cd harness && cargo build --release --offline 2>&1 | tail -3)
 echo "setup done"
